@@ -17,6 +17,13 @@ pub enum CB {
     By,
 }
 
+/// a second str enum to morph into and back (bump on a morphed lexer)
+#[derive(Logos, Debug, Clone, PartialEq)]
+pub enum CS2 {
+    #[regex("(?s:.)", priority = 1)]
+    Any,
+}
+
 /// hand-written Logos impls over WRAPPER sources (`impl<T: Deref> Source for T`): only bump and
 /// the accessors are exercised, `lex` is never asked for a token
 macro_rules! wrapper_token {
@@ -87,7 +94,7 @@ fn n_values(len: usize) -> Vec<usize> {
 pub fn run(tier: &str, rep: &mut Report) {
     // unoptimised quick runs take every 17th scalar value above U+3000 (the optimised builds and the thorough tier take all)
     let sparse = cfg!(debug_assertions) && tier != "thorough";
-    rep.bounds.insert("rule".into(), "sources {\"\", \"a\", \"aé\", \"é€😊\", 9-byte ASCII} as str and [u8], ordinary and partial lexers, the same through String / Box<str> / Vec<u8> / &str wrappers and through two user-written sources whose is_boundary panics by itself behind the end, plus \"a<c>b\" for EVERY Unicode scalar value c (positions 0 and 1, n in 0..=len+1) and byte sources of every value (all strings of length <= 2, length 3 over 12 UTF-8 edge bytes, invalid UTF-8 included); every lexer position reachable by next() (every char / byte boundary); n in {0..=len+2} U {usize::MAX-len-2..=usize::MAX} U {2^63-1, 2^63, 2^63+1, usize::MAX/2, 2^32}. Oracle: bump(n) returns normally iff end+n <= len in unbounded arithmetic and (str) lands on a char boundary, otherwise it panics; after BOTH outcomes span() is a valid range on boundaries (checked numerically before slice()/remainder() are called). Non-trivial = the expected outcome is a panic or end+n is within +-1 of len.".into());
+    rep.bounds.insert("rule".into(), "sources {\"\", \"a\", \"aé\", \"é€😊\", 9-byte ASCII} as str and [u8], ordinary and partial lexers, the lexer also obtained by clone, by morph into another enum (bumped there, morphed back) and through the spanned iterator, the same through String / Box<str> / Vec<u8> / &str wrappers and through two user-written sources whose is_boundary panics by itself behind the end, plus \"a<c>b\" for EVERY Unicode scalar value c (positions 0 and 1, n in 0..=len+1) and byte sources of every value (all strings of length <= 2, length 3 over 12 UTF-8 edge bytes, invalid UTF-8 included); every lexer position reachable by next() (every char / byte boundary); n in {0..=len+2} U {usize::MAX-len-2..=usize::MAX} U {2^63-1, 2^63, 2^63+1, usize::MAX/2, 2^32}. Oracle: bump(n) returns normally iff end+n <= len in unbounded arithmetic and (str) lands on a char boundary, otherwise it panics; after BOTH outcomes span() is a valid range on boundaries (checked numerically before slice()/remainder() are called). Non-trivial = the expected outcome is a panic or end+n is within +-1 of len.".into());
     let sources: [&str; 5] = ["", "a", "aé", "é€😊", "abcdefghi"];
     std::panic::set_hook(Box::new(|_| {}));
     for src in sources {
@@ -107,6 +114,56 @@ pub fn run(tier: &str, rep: &mut Report) {
                     let sp = lex.span();
                     lex.slice().len() == sp.end - sp.start && lex.remainder().len() == src.len() - sp.end
                 });
+            }
+        }
+        // ---------------- str, the lexer obtained by clone / morph (there and back) / through the
+        // spanned iterator, positioned by next() before or after that step
+        for (k, &pos) in positions.iter().enumerate() {
+            for n in n_values(src.len()) {
+                for via in 0..5 {
+                    let mut base: Lexer<CS> = Lexer::new(src);
+                    if via % 2 == 0 {
+                        for _ in 0..k {
+                            base.next();
+                        }
+                    }
+                    let want_ok = pos.checked_add(n).map_or(false, |e| e <= src.len() && src.is_char_boundary(e));
+                    let (kind, ok, sp, slices): (&str, bool, (usize, usize), bool) = match via {
+                        0 => {
+                            let mut l = base.clone();
+                            let r = catch_unwind(AssertUnwindSafe(|| l.bump(n)));
+                            let sp = l.span();
+                            let valid = sp.start <= sp.end && sp.end <= src.len() && src.is_char_boundary(sp.start) && src.is_char_boundary(sp.end);
+                            ("str (a clone)", r.is_ok(), (sp.start, sp.end), !valid || (l.slice().len() == sp.end - sp.start && l.remainder().len() == src.len() - sp.end))
+                        }
+                        1 | 2 => {
+                            let mut m: Lexer<CS2> = base.morph();
+                            if via == 1 {
+                                for _ in 0..k {
+                                    m.next();
+                                }
+                            }
+                            let r = catch_unwind(AssertUnwindSafe(|| m.bump(n)));
+                            let back: Lexer<CS> = m.morph();
+                            let sp = back.span();
+                            let valid = sp.start <= sp.end && sp.end <= src.len() && src.is_char_boundary(sp.start) && src.is_char_boundary(sp.end);
+                            ("str (morphed, bumped, morphed back)", r.is_ok(), (sp.start, sp.end), !valid || (back.slice().len() == sp.end - sp.start && back.remainder().len() == src.len() - sp.end))
+                        }
+                        _ => {
+                            let mut it = base.spanned();
+                            if via == 3 {
+                                for _ in 0..k {
+                                    it.next();
+                                }
+                            }
+                            let r = catch_unwind(AssertUnwindSafe(|| it.bump(n)));
+                            let sp = it.span();
+                            let valid = sp.start <= sp.end && sp.end <= src.len() && src.is_char_boundary(sp.start) && src.is_char_boundary(sp.end);
+                            ("str (through the spanned iterator)", r.is_ok(), (sp.start, sp.end), !valid || (it.slice().len() == sp.end - sp.start && it.remainder().len() == src.len() - sp.end))
+                        }
+                    };
+                    check(rep, kind, src.as_bytes(), pos, n, want_ok, ok, sp.0, sp.1, |i| src.is_char_boundary(i), || slices);
+                }
             }
         }
         // ---------------- bytes
